@@ -85,10 +85,22 @@ def gen_cases(rng, count, big, kinit=128):
         else:
             m = rng.choice([1, 2, 5, 20]) if n < 200 else 8
             queries = []
+            INF = 1 << 60
             for _ in range(m):
                 if kind == 0:
                     lo = [rng.randrange(-1, L + 1) for _ in range(3)]
                     hi = [a + rng.randrange(L) for a in lo]
+                    r = rng.random()
+                    if r < 0.12:
+                        # unbounded but non-empty query boxes: half-spaces, slabs, all of space
+                        # (e.g. face boxes grown by an infinite MinGap search length)
+                        for k in range(3):
+                            if rng.random() < 0.6:
+                                lo[k] = -INF
+                            if rng.random() < 0.6:
+                                hi[k] = INF
+                    elif r < 0.16:
+                        lo, hi = [INF] * 3, [-INF] * 3      # the empty box Box(): early exit, no pairs
                     queries += lo + hi
                 else:
                     queries += [rng.randrange(-1, L + 2), rng.randrange(-1, L + 2)]
